@@ -36,6 +36,8 @@ pub struct Profile {
     pub p_key_via_agg: f64,
     pub p_fn_exprs: f64,
     pub p_inner_where: f64,
+    pub p_join_of_subqueries: f64,
+    pub p_on_or: f64,
     pub p_unsupported_agg: f64,
     /// Probability of an aggregation over an aggregation grouped by the inner aggregate
     /// (`SELECT t.c, count(*) FROM (SELECT count(*) AS c FROM base GROUP BY key) AS t GROUP BY t.c`).
@@ -68,17 +70,19 @@ impl Profile {
             p_key_via_agg: 0.04,
             p_fn_exprs: 0.1,
             p_inner_where: 0.5,
+            p_join_of_subqueries: 0.0,
+            p_on_or: 0.0,
             p_unsupported_agg: 0.0,
             p_nested_group: 0.0,
             p_multi_dp: 0.0,
         };
         match prop {
-            "C03" => Profile { p_cross: 0.04, p_outer_kinds: 0.05, p_multi_dp: 0.06, p_shared_cte: 0.05, p_nested_group: 0.03, ..base },
-            "C01" => Profile { p_cross: 0.06, p_outer_kinds: 0.06, p_shared_cte: 0.03, p_nested_group: 0.05, ..base },
+            "C03" => Profile { p_on_or: 0.04, p_cross: 0.04, p_outer_kinds: 0.05, p_multi_dp: 0.06, p_shared_cte: 0.05, p_nested_group: 0.03, ..base },
+            "C01" => Profile { p_on_or: 0.06, p_cross: 0.06, p_outer_kinds: 0.06, p_shared_cte: 0.03, p_nested_group: 0.05, ..base },
             "C09" => Profile { p_fn_exprs: 0.25, p_modulo: 0.12, p_alias_shadow: 0.4, public_keys_only: true, benign_data: true, p_distinct: 0.12, p_row_privacy: 0.15, p_grouped: 0.65, ..base },
             "C04" => Profile { p_key_via_agg: 0.25, p_nested_group: 0.08, p_nested: 0.0, need_private_key: true, p_grouped: 1.0, p_outer: 0.0, p_distinct: 0.05, ..base },
             "C16" => Profile { benign_data: true, full_catalogue: true, p_public_table: 1.0, p_synthetic: 0.3, ..base },
-            "C02" => Profile { p_unsupported_agg: 0.08, p_cross: 0.04, p_outer_kinds: 0.05, p_multi_dp: 0.04, p_nested_group: 0.03, p_shared_cte: 0.08, p_plain: 0.25, p_synthetic: 0.4, p_public_table: 0.5, p_outer: 0.2, ..base },
+            "C02" => Profile { p_join_of_subqueries: 0.05, p_on_or: 0.04, p_unsupported_agg: 0.08, p_cross: 0.04, p_outer_kinds: 0.05, p_multi_dp: 0.04, p_nested_group: 0.03, p_shared_cte: 0.08, p_plain: 0.25, p_synthetic: 0.4, p_public_table: 0.5, p_outer: 0.2, ..base },
             _ => base,
         }
     }
@@ -383,7 +387,7 @@ pub fn generate(seed: u64, run: u64, prop: &str) -> Generated {
         tags.push("extreme_epsilon".into());
     }
     if rx.chance(0.06) {
-        params.delta = *rx.pick(&[1e-12, 1e-10, 0.05, 0.2]);
+        params.delta = *rx.pick(&[1e-20, 1e-17, 1e-12, 1e-10, 0.05, 0.2]);
         tags.push("extreme_delta".into());
     }
     // a cap far from any default a parameter conversion could silently fall back to
@@ -685,6 +689,16 @@ pub fn generate(seed: u64, run: u64, prop: &str) -> Generated {
             join_tags.push("outer_kind");
         }
     }
+    // the key equality of a join along the path under an OR (own stream): not a top-level conjunct
+    let mut ror = Rng::stream(seed, run, "on_or");
+    if ror.chance(profile.p_on_or) {
+        if let Some(f) = from.iter_mut().skip(1).find(|f| protected.contains(&f.table) && f.on.is_some() && f.kind != "CROSS JOIN") {
+            let on = f.on.clone().unwrap();
+            let other = if f.alias == "u" { "u.id > 3" } else if f.alias == "o" { "o.id > 3" } else { "i.order_id > 3" };
+            f.on = Some(format!("({} OR {})", on, other));
+            join_tags.push("on_or");
+        }
+    }
     if ref_key {
         for f in from.iter_mut() {
             if let Some(on) = f.on.as_mut() {
@@ -878,6 +892,28 @@ pub fn generate(seed: u64, run: u64, prop: &str) -> Generated {
             tags.push("shared_cte".into());
             let query = QuerySpec { from: vec![], where_: vec![], keys: vec![], aggs: vec![], having: None, outer: None, plain: None, cte: None, raw_sql: None, holders_override: None, inner_where: vec![] };
             let base = Some((a, base_t.name.clone()));
+            let mut g = finish(seed, run, tables, synthetic, pu, params, query, base, tags, faults, &protected);
+            g.scenario.sql = sql;
+            g.scenario.query = None;
+            return g;
+        }
+    }
+
+    // a row-level join of two filtered sub-queries (own stream): no DP route exists for it, it can
+    // only be refused or answered from synthetic data
+    let mut rjs = Rng::stream(seed, run, "join_of_subqueries");
+    if rjs.chance(profile.p_join_of_subqueries) && has("users").is_some() && has("orders").is_some() && !direct_orders {
+        let uc = has("users").unwrap().cols.iter().find(|c| c.name != "id" && c.name != "name" && c.name != "w").map(|c| c.name.clone());
+        let oc = has("orders").unwrap().cols.iter().find(|c| !c.name.ends_with("id") && c.name != "w" && c.name != "ref").map(|c| c.name.clone());
+        if let (Some(uc), Some(oc)) = (uc, oc) {
+            tags.push("join_of_subqueries".into());
+            let sql = format!(
+                "SELECT a.id AS p0, a.{uc} AS p1, b.{oc} AS p2 FROM (SELECT id, {uc} FROM users WHERE id > 0) AS a JOIN (SELECT user_id, {oc} FROM orders WHERE user_id > 0) AS b ON a.id = b.user_id",
+                uc = uc,
+                oc = oc
+            );
+            let base = Some(("u".to_string(), "users".to_string()));
+            let query = QuerySpec { from: vec![], where_: vec![], keys: vec![], aggs: vec![], having: None, outer: None, plain: None, cte: None, raw_sql: None, holders_override: None, inner_where: vec![] };
             let mut g = finish(seed, run, tables, synthetic, pu, params, query, base, tags, faults, &protected);
             g.scenario.sql = sql;
             g.scenario.query = None;
@@ -1144,7 +1180,8 @@ pub fn generate(seed: u64, run: u64, prop: &str) -> Generated {
                 5 => (format!("greatest({}, {})", q, lit(mid)), m, "greatest"),
                 6 if !is_int => (format!("floor({})", q), m + 1.0, "floor"),
                 7 if !is_int => (format!("ceil({})", q), m + 1.0, "ceil"),
-                8 if is_int => (format!("cast({} AS float)", q), m, "cast_float"),
+                8 if is_int && rfe.chance(0.5) => (format!("cast({} AS float)", q), m, "cast_float"),
+                8 if is_int => (format!("{} / 2.0", q), m, "int_over_float_literal"),
                 9 if !is_int => (format!("{} / 2", q), m, "half"),
                 9 if is_int && lo < 0.0 && hi > 0.0 => (format!("CASE WHEN abs({}) <= 1 THEN {} ELSE 0 END", q, q), m, "case_abs"),
                 6 | 7 if is_int && lo < 0.0 && hi > 0.0 => (format!("CASE WHEN abs({}) >= 2 THEN 1 ELSE 0 END", q), 1.0, "case_abs"),
